@@ -25,6 +25,9 @@ CONSTANTS
   WriteErrKeepsEntry = FALSE
   AllowFire = TRUE
   FireRegisters = TRUE
+  RFault = FALSE
+  ReadErrEndsCalls = FALSE
+  LoopSurvivesClose = FALSE
   MaxTry = 1
 INVARIANTS IdReusable
 CHECK_DEADLOCK FALSE
